@@ -1466,6 +1466,34 @@ int32 matrixUpdateSession(ssl_t *ssl)
 #  ifdef USE_STATELESS_SESSION_TICKETS
 /* This implementation supports AES-128/256_CBC and HMAC-SHA1/256 */
 
+/* The ticket key list of a key set (keys->sessTickets) is modified by
+   matrixSslLoadSessionTicketKeys and matrixSslDeleteSessionTicketKey under
+   g_sessTicketLock while sessions of other threads use the same key set:
+   every reader takes the lock as well. */
+void matrixSslLockSessionTicketKeys(void)
+{
+    psLockMutex(&g_sessTicketLock);
+}
+
+void matrixSslUnlockSessionTicketKeys(void)
+{
+    psUnlockMutex(&g_sessTicketLock);
+}
+
+psBool_t matrixSslHaveSessionTicketKeys(const sslKeys_t *keys)
+{
+    psBool_t have;
+
+    if (keys == NULL)
+    {
+        return PS_FALSE;
+    }
+    psLockMutex(&g_sessTicketLock);
+    have = (keys->sessTickets != NULL) ? PS_TRUE : PS_FALSE;
+    psUnlockMutex(&g_sessTicketLock);
+    return have;
+}
+
 /******************************************************************************/
 /*
     Remove a named key from the list.
